@@ -267,10 +267,8 @@ def execute(program):
                         raise HarnessError(str(e)) from e
         try:
             m2 = faults.persist(w.m, p["how"])
-        except Exception as e:  # noqa: BLE001
-            if exc_in_harness(e):
-                raise HarnessError(str(e)) from e
-            w.violate("copy_equal", f"{p['how']} of the module raised {exc_text(e)}", at, {"how": p["how"]})
+        except faults.PersistFailed as e:
+            w.violate("copy_equal", str(e), at, {"how": p["how"]})
             return res()
         w.bump("fault_persist_" + p["how"])
         w.bump("fault_continue_on_" + p["cont"])
